@@ -390,7 +390,10 @@ func runCase(c Case, ctx *hx.Ctx) *hx.Failure {
 	sort.Ints(cutList)
 	for _, k := range cutList {
 		p := cachex.New(4096, c.Lazy)
-		code, _ := p.Load(d[:k])
+		code, body := p.Load(d[:k])
+		if code == cachex.LoadHangs {
+			return hx.Failf("C19/load-hangs", "loading a dump of %d bytes cut to %d bytes: %s", len(d), k, body)
+		}
 		pd, derr := p.Dump()
 		p.Close()
 		if code == 200 {
@@ -439,7 +442,11 @@ func runCase(c Case, ctx *hx.Ctx) *hx.Failure {
 		}
 		p := cachex.New(4096, c.Lazy)
 		var code int
-		alloc := allocDuring(func() { code, _ = p.Load(in) })
+		var body string
+		alloc := allocDuring(func() { code, body = p.Load(in) })
+		if code == cachex.LoadHangs {
+			return hx.Failf("C19/load-hangs", "loading %d damaged bytes (%s, value %d): %s", len(in), dm.Kind, dm.Val, body)
+		}
 		pd, _ := p.Dump()
 		p.Close()
 		if len(in) <= 64<<10 && alloc > 48<<20 {
@@ -531,7 +538,11 @@ func FuzzLoadDump(f *testing.F) {
 		p := cachex.New(1024, 0)
 		defer p.Close()
 		var code int
-		alloc := allocDuring(func() { code, _ = p.Load(in) })
+		var body string
+		alloc := allocDuring(func() { code, body = p.Load(in) })
+		if code == cachex.LoadHangs {
+			t.Fatalf("load hangs: %s", body)
+		}
 		if len(in) <= 64<<10 && alloc > 64<<20 {
 			t.Fatalf("loading %d bytes allocated %d MiB", len(in), alloc>>20)
 		}
